@@ -1155,6 +1155,80 @@ def range_reference_check(rng):
     return count, found
 
 
+def self_registration_check(rng):
+    """A class that registers ITSELF under its id while it is being built (FlexibleTimeTreeModel: so that its own
+    heights parameter can refer to the tree) — outside the loader model, judged on the implementation: the object
+    the loader returns, the registry entry and what a reference inside its own definition resolves to are ONE
+    object; a second definition of the id is still rejected, before and after; a reference to it from a later
+    object resolves to it.  -> (count, [finding])"""
+    impl.load()
+    from torchtree.core.utils import JSONParseError, process_object
+    found, count = [], 0
+    names = ["A", "B", "C", "D"]
+    taxa = {"id": "taxa", "type": "Taxa", "taxa": [{"id": n, "type": "Taxon", "attributes": {"date": 0.0}} for n in names]}
+
+    def tree(heights):
+        return {"id": "tree", "type": "FlexibleTimeTreeModel", "newick": "(((A,B),C),D);", "taxa": "taxa",
+                "internal_heights": heights}
+    plain = {"id": "heights", "type": "Parameter", "tensor": [1.0, 2.0, 3.0]}
+    # the heights refer back to the tree that is being built (the case self-registration exists for)
+    circular = {"id": "heights", "type": "TransformedParameter",
+                "transform": "torchtree.evolution.tree_height_transform.GeneralNodeHeightTransform",
+                "parameters": {"tree": "tree"},
+                "x": {"id": "ratios_root", "type": "Parameter", "tensor": [0.5, 0.5, 3.0]}}
+    for label, heights in (("plain", plain), ("heights-refer-to-the-tree", circular)):
+        dic = {}
+        try:
+            process_object(copy.deepcopy(taxa), dic)
+            obj = process_object(tree(copy.deepcopy(heights)), dic)
+            count += 1
+            if dic.get("tree") is not obj:
+                found.append((f"C13:self-registration:{label}:registry-holds-another-object",
+                              "the object returned for `tree' is not the one registered under `tree'", dict(case=label)))
+            if label != "plain":
+                held = getattr(dic["heights"].transform, "tree", None)
+                if held is not obj:
+                    found.append((f"C13:self-registration:{label}:reference-resolves-to-another-object",
+                                  "the reference to `tree' inside its own definition does not denote the object that "
+                                  "ends up registered under `tree'", dict(case=label)))
+            user = process_object({"id": "coal", "type": "ConstantCoalescentModel", "tree_model": "tree",
+                                   "theta": {"id": "theta", "type": "Parameter", "tensor": [3.0]}}, dic)
+            if user.tree_model is not obj:
+                found.append((f"C13:self-registration:{label}:later-reference-resolves-to-another-object",
+                              "a later reference to `tree' does not denote the registered object", dict(case=label)))
+        except Exception as e:      # noqa
+            found.append((f"C13:self-registration:{label}:raises:{type(e).__name__}", f"{type(e).__name__}: {str(e)[:160]}",
+                          dict(case=label)))
+            continue
+        # the id cannot be defined a second time, by the same class or another one, inline or at the top level
+        for again in (tree(copy.deepcopy(plain) | {"id": "heights2"}), {"id": "tree", "type": "Parameter", "tensor": [1.0]}):
+            count += 1
+            try:
+                process_object(copy.deepcopy(again), dic)
+                found.append((f"C13:self-registration:{label}:duplicate-accepted",
+                              f"a second definition of `tree' ({again['type']}) is accepted", dict(case=label)))
+            except JSONParseError:
+                pass
+            except Exception as e:      # noqa
+                found.append((f"C13:self-registration:{label}:duplicate:{type(e).__name__}",
+                              f"a second definition of `tree' raises {type(e).__name__}: {str(e)[:120]} instead of a parse "
+                              f"error", dict(case=label)))
+    # defined first by someone else: the self-registering class must refuse the id
+    dic = {}
+    try:
+        process_object(copy.deepcopy(taxa), dic)
+        process_object({"id": "tree", "type": "Parameter", "tensor": [1.0]}, dic)
+        count += 1
+        process_object(tree(copy.deepcopy(plain)), dic)
+        found.append(("C13:self-registration:duplicate-of-an-earlier-object-accepted",
+                      "FlexibleTimeTreeModel takes an id that is already registered", {}))
+    except JSONParseError:
+        pass
+    except Exception as e:      # noqa
+        found.append((f"C13:self-registration:earlier:{type(e).__name__}", f"{type(e).__name__}: {str(e)[:160]}", {}))
+    return count, found
+
+
 # ------------------------------------------------------------------ json_factory round trips
 
 def factory_roundtrips(rng, n_rounds):
@@ -1528,6 +1602,9 @@ def run(tier, seed, replay=None):
         direct.setdefault(f[0], f)
     n_range, rfound = range_reference_check(random.Random(seed + 2))
     for f in rfound:
+        direct.setdefault(f[0], f)
+    n_selfreg, sfound = self_registration_check(random.Random(seed + 3))
+    for f in sfound:
         direct.setdefault(f[0], f)
     for f in static_checks(aliases):
         direct.setdefault(f[0], f)
